@@ -7,6 +7,9 @@
 (*   blank / comment   insert one line so that it becomes line `at`         *)
 (*   trailing          append spaces to line `at`                           *)
 (*   reindent, crlf, lf, bom, append   whole-file edits (`at` = 0)           *)
+(*   rename            every function-local identifier renamed consistently  *)
+(*                     (`at` = 0); judged for the rules that do not inspect  *)
+(*                     names (all but stringly-typed and dry)                *)
 (* Shift(edits, l) is the line at which original line l ends up.            *)
 (* Requirement: Findings(apply(edits, f)) = {Shift(v) : v in Findings(f)};  *)
 (* file-level findings (`pinned`) stay where they are.                      *)
@@ -17,7 +20,7 @@ CONSTANTS NLines,      \* abstract file length used for the meta-properties
           MaxEdits
 
 Inserting == {"blank", "comment"}
-Whole     == {"reindent", "crlf", "bom", "append"}
+Whole     == {"reindent", "crlf", "bom", "append", "rename"}
 Kinds     == Inserting \cup {"trailing"} \cup Whole
 \* abstract positions: fractions of the file (0 = before the first line, 3 = after the last line)
 Pos == 0..3
